@@ -78,6 +78,10 @@ def check_algebra(op, specs, args, stats, enum=False):
                            'using one sort_params((%s)) result twice gives %s then %s' % (universe.spec_text(specs[0]), r, rr))
             sp2 = signatures.sort_params(sigs[0])
             r2 = signatures.apply_params(sigs[0], *sp2)
+            # ... also when no provenance is handed over: the result's map is its own
+            if containers(r2) & containers(sigs[0]):
+                stats.fail('C16/A/sort_apply/aliasing-without-sources', {'part': 'A', 'op': op, 'specs': [list(map(list, x)) for x in specs], 'args': args},
+                           'apply_params(sig, *sort_params(sig)) for (%s): the result shares its provenance map (or a list in it) with sig' % universe.spec_text(specs[0]))
             exc = None
         except Exception as e:
             r, exc = None, e
